@@ -186,6 +186,20 @@ func check(c evCase) {
 	}
 	// message publication
 	mp := msg.VerifToMessagePublication(&sdk.BlockHeaderEntry{Timestamp: c.TsMs})
+	// decode ANOTHER event (and an attestation) while this message is still held: the held message and
+	// its publication must not change (no shared scratch memory between conversions)
+	other := defaults()
+	other[4] = fieldSpec{"ByteVec", strings.Repeat("ee", len(want.Payload)+3)}
+	other[3] = fieldSpec{"ByteVec", "aabbccdd"}
+	ov := make([]sdk.Val, 6)
+	for i, f := range other {
+		ov[i] = f.val()
+	}
+	alephium.ToWormholeMessage(ov, "ff")
+	alephium.VerifParseAttestToken(attestPayload([32]byte{1}, 255, 8, [32]byte{'X'}, [32]byte{'Y'}))
+	if again := msg.VerifFields(); !bytes.Equal(again.Payload, want.Payload) || again.SenderId != want.SenderId || again.Nonce != want.Nonce {
+		r.Violation("a decoded message changed after another event was decoded (conversions share memory)", fmt.Sprintf("payload now %x", again.Payload[:imin(len(again.Payload), 16)]), c)
+	}
 	wantTx := c.TxId
 	okPub := mp.Timestamp.UnixMilli() == c.TsMs && mp.Timestamp.Nanosecond()%1_000_000 == 0 && mp.EmitterChain == vaa.ChainIDAlephium && uint16(mp.TargetChain) == want.TargetChainId &&
 		mp.EmitterAddress == vaa.Address(want.SenderId) && mp.Nonce == want.Nonce && mp.Sequence == want.Sequence && mp.ConsistencyLevel == want.ConsistencyLevel && bytes.Equal(mp.Payload, want.Payload)
